@@ -197,15 +197,15 @@ Proof.
   rewrite insert_desc_in, IH. cbn [In]. intuition.
 Qed.
 
-Lemma suffix_filter_in l x : In x (suffix_filter l) -> In x l.
+Lemma suffix_filter_in src l x : In x (suffix_filter src l) -> In x l.
 Proof.
   induction l as [|p r IH]; cbn [suffix_filter]; [auto|].
-  destruct (existsb (fun q => is_suffix q p) r); cbn [In]; intuition.
+  destruct (existsb (fun q => loops_into src q p) r); cbn [In]; intuition.
 Qed.
 
-(* a path survives the filter when nothing else in the list is a suffix of it *)
-Lemma suffix_filter_keep l p :
-  In p l -> (forall q, In q l -> is_suffix q p = true -> q = p) -> In p (suffix_filter l).
+(* a path survives the filter when nothing else in the list loops into it *)
+Lemma suffix_filter_keep src l p :
+  In p l -> (forall q, In q l -> loops_into src q p = true -> q = p) -> In p (suffix_filter src l).
 Proof.
   induction l as [|x r IH]; intros Hin Hsuf; [destruct Hin|]. cbn [suffix_filter].
   destruct (in_dec (list_eq_dec (fun a b : net =>
@@ -213,23 +213,47 @@ Proof.
              | left e => left (proj1 (net_eqb_eq a b) e)
              | right ne => right (fun e => ne (proj2 (net_eqb_eq a b) e))
              end)) p r) as [Hr|Hr].
-  - assert (In p (suffix_filter r)).
+  - assert (In p (suffix_filter src r)).
     { apply IH; [exact Hr|]. intros q Hq. apply Hsuf. right. exact Hq. }
-    destruct (existsb (fun q => is_suffix q x) r); [assumption | right; assumption].
+    destruct (existsb (fun q => loops_into src q x) r); [assumption | right; assumption].
   - destruct Hin as [->|Hin]; [|contradiction].
-    destruct (existsb (fun q => is_suffix q p) r) eqn:E.
+    destruct (existsb (fun q => loops_into src q p) r) eqn:E.
     + apply existsb_exists in E. destruct E as [q [Hq Hs]].
       exfalso. apply Hr. rewrite <- (Hsuf q (or_intror Hq) Hs). exact Hq.
     + left. reflexivity.
 Qed.
 
-Lemma is_suffix_split q p : is_suffix q p = true ->
-  exists p1, p = p1 ++ q /\ (length p1 = length p - length q)%nat.
+(* loops_into: q is a suffix of p and the net just before it (if any) drives src *)
+Lemma loops_into_split src q p : loops_into src q p = true ->
+  exists head, p = head ++ q /\
+    (head = [] \/ exists h l, head = h ++ [l] /\ has_dest l = true /\ ndest l = src).
 Proof.
-  unfold is_suffix. intro H. apply list_eqb_net_eq in H.
-  exists (firstn (length p - length q) p). split.
-  - rewrite <- H at 2. symmetry. apply firstn_skipn.
-  - apply firstn_length_le. lia.
+  unfold loops_into. set (k := (length p - length q)%nat). intro H.
+  apply andb_prop in H. destruct H as [H1 H2]. apply list_eqb_net_eq in H1.
+  assert (Hk : length (firstn k p) = k) by (apply firstn_length_le; unfold k; lia).
+  rewrite Hk in H1. exists (firstn k p). split.
+  - rewrite <- H1. symmetry. apply firstn_skipn.
+  - destruct (rev (firstn k p)) as [|l r] eqn:E.
+    + left. apply (f_equal (@rev net)) in E. rewrite rev_involutive in E. exact E.
+    + right. apply andb_prop in H2. destruct H2 as [H2 H3]. exists (rev r), l.
+      split; [|split; [exact H2 | lia]].
+      apply (f_equal (@rev net)) in E. rewrite rev_involutive in E. exact E.
+Qed.
+
+Lemma firstn_len_app {A} (l1 l2 : list A) : firstn (length l1) (l1 ++ l2) = l1.
+Proof. induction l1 as [|x r IH]; cbn [length app firstn]; [reflexivity | rewrite IH; reflexivity]. Qed.
+
+Lemma skipn_len_app {A} (l1 l2 : list A) : skipn (length l1) (l1 ++ l2) = l2.
+Proof. induction l1 as [|x r IH]; cbn [length app skipn]; [reflexivity | exact IH]. Qed.
+
+Lemma loops_into_intro src l1 n p2 :
+  has_dest n = true -> ndest n = src -> loops_into src p2 ((l1 ++ [n]) ++ p2) = true.
+Proof.
+  intros Hd Hs. unfold loops_into.
+  replace (length ((l1 ++ [n]) ++ p2) - length p2)%nat with (length (l1 ++ [n]))
+    by (rewrite (app_length (l1 ++ [n]) p2); lia).
+  rewrite firstn_len_app, skipn_len_app, rev_unit, Hd, Hs, Z.eqb_refl.
+  rewrite (proj2 (list_eqb_net_eq p2 p2) eq_refl). reflexivity.
 Qed.
 
 (* ---------- soundness ---------- *)
@@ -296,20 +320,173 @@ Proof.
   destruct (src =? dst) eqn:E; [lia|].
   apply suffix_filter_keep.
   - apply (proj2 (sort_desc_in _ _)). apply raw_complete; auto.
-  - intros q Hq Hs. apply (proj1 (sort_desc_in _ _)) in Hq. apply (proj1 (paths_raw_in _ _ _)) in Hq. destruct Hq as [Hqne Hq].
+  - intros q Hq Hs. apply (proj1 (sort_desc_in _ _)) in Hq. apply (proj1 (paths_raw_in _ _ _)) in Hq.
+    destruct Hq as [Hqne Hq].
     apply dfs_sound in Hq. destruct Hq as [q' [Eq Hq]]. cbn [app] in Eq. subst q'.
     apply dchain_chain in Hq. apply chain_first in Hq.
-    apply is_suffix_split in Hs. destruct Hs as [p1 [Ep _]].
+    apply loops_into_split in Hs. destruct Hs as [p1 [Ep _]].
     destruct p1 as [|x p1]; [rewrite Ep; reflexivity|]. exfalso.
     destruct q as [|n q]; [congruence|].
     apply (Hguard n); [|exact Hq]. rewrite Ep. cbn [app tl]. apply in_or_app. right. left. reflexivity.
+Qed.
+
+(* src <> dst, after the F18 fix: complete for every path that repeats no net
+   and does not come back to src -- no guard on the graph shape *)
+Theorem paths_complete_nonloop src dst p :
+  src <> dst -> p <> [] -> chain nl src p dst -> NoDup p -> ~ In src (visits p) ->
+  In p (paths nl src dst).
+Proof.
+  intros Hsd Hne Hc Hnd Hvis. unfold paths.
+  destruct (src =? dst) eqn:E; [lia|].
+  apply suffix_filter_keep.
+  - apply (proj2 (sort_desc_in _ _)). apply raw_complete; auto.
+  - intros q _ Hs. apply loops_into_split in Hs. destruct Hs as [head [Ep [->|[h [l [-> [Hd Hl]]]]]]].
+    + rewrite Ep. reflexivity.
+    + exfalso. apply Hvis. unfold visits. apply in_map_iff. exists l. split; [exact Hl|].
+      apply filter_In. split; [|exact Hd]. rewrite Ep. apply in_or_app. left.
+      apply in_or_app. right. left. reflexivity.
+Qed.
+
+(* paths(src, dst) returns EVERY simple path (all graphs, memories included) *)
+Theorem paths_complete src dst p : simple_path nl src p dst -> In p (paths nl src dst).
+Proof.
+  intros [Hne [Hc [Hnd [_ Hsrc]]]]. destruct (Z.eq_dec src dst) as [<-|Hneq].
+  - apply paths_complete_loop; auto.
+  - apply paths_complete_nonloop; auto.
+Qed.
+
+(* ---------- the filter does its intended job: no returned path revisits src ---------- *)
+
+Fixpoint dsorted {A} (l : list (list A)) : Prop :=
+  match l with
+  | [] => True
+  | x :: r => (forall y, In y r -> (length y <= length x)%nat) /\ dsorted r
+  end.
+
+Lemma insert_desc_sorted {A} (p : list A) l : dsorted l -> dsorted (insert_desc p l).
+Proof.
+  induction l as [|q r IH]; cbn [insert_desc dsorted].
+  - intros _. split; [intros y []|exact I].
+  - intros [Hq Hr]. destruct (length p <? length q)%nat eqn:E; cbn [dsorted].
+    + split; [|apply IH; exact Hr]. intros y Hy. apply insert_desc_in in Hy.
+      destruct Hy as [->|Hy]; [apply Nat.ltb_lt in E; lia | apply Hq; exact Hy].
+    + apply Nat.ltb_ge in E. split; [|split; assumption].
+      intros y [<-|Hy]; [exact E | specialize (Hq y Hy); lia].
+Qed.
+
+Lemma sort_desc_sorted {A} (l : list (list A)) : dsorted (sort_desc l).
+Proof.
+  unfold sort_desc. induction l as [|p r IH]; cbn [fold_right]; [exact I|].
+  apply insert_desc_sorted. exact IH.
+Qed.
+
+Lemma suffix_filter_drop src l p :
+  dsorted l -> In p (suffix_filter src l) ->
+  forall q, In q l -> (length q < length p)%nat -> loops_into src q p = true -> False.
+Proof.
+  induction l as [|x r IH]; intros Hs Hin q Hq Hlen Hsuf; [destruct Hq|].
+  destruct Hs as [Hx Hr]. cbn [suffix_filter] in Hin.
+  assert (Hcase : forall (Hp : In p (suffix_filter src r)), False).
+  { intro Hp. destruct Hq as [<-|Hq].
+    - apply suffix_filter_in in Hp. specialize (Hx p Hp). lia.
+    - exact (IH Hr Hp q Hq Hlen Hsuf). }
+  destruct (existsb (fun q0 => loops_into src q0 x) r) eqn:E; [exact (Hcase Hin)|].
+  destruct Hin as [<-|Hin]; [|exact (Hcase Hin)].
+  destruct Hq as [<-|Hq]; [lia|].
+  assert (existsb (fun q0 => loops_into src q0 x) r = true); [|congruence].
+  apply existsb_exists. exists q. split; assumption.
+Qed.
+
+Lemma chain_tail w l1 n p2 dst :
+  chain nl w (l1 ++ n :: p2) dst -> (forall x, In x (l1 ++ [n]) -> has_dest x = true) ->
+  chain nl (ndest n) p2 dst.
+Proof.
+  revert w. induction l1 as [|x l1 IH]; intros w Hc Hall; cbn [app] in Hc.
+  - inversion Hc as [| w0 n0 p0 w0' Hn Hw Hd Hrest | w0 n0 m rn p0 w0' Hn Hw Hop]; subst.
+    + exact Hrest.
+    + specialize (Hall n (or_introl eq_refl)). unfold has_dest in Hall. rewrite Hop in Hall. discriminate.
+  - inversion Hc as [| w0 n0 p0 w0' Hn Hw Hd Hrest | w0 n0 m rn p0 w0' Hn Hw Hop]; subst.
+    + apply (IH _ Hrest). intros y Hy. apply Hall. right. exact Hy.
+    + specialize (Hall x (or_introl eq_refl)). unfold has_dest in Hall. rewrite Hop in Hall. discriminate.
+Qed.
+
+Lemma chain_nil_eq w dst : chain nl w [] dst -> w = dst.
+Proof. intro H. inversion H. reflexivity. Qed.
+
+Lemma NoDup_map_inj {A B} (f : A -> B) (l : list A) :
+  NoDup l -> (forall x y, In x l -> In y l -> f x = f y -> x = y) -> NoDup (map f l).
+Proof.
+  induction l as [|x r IH]; intros Hnd Hinj; cbn [map]; [constructor|].
+  inversion Hnd as [|x' r' Hx Hr]; subst. constructor.
+  - intro H. apply in_map_iff in H. destruct H as [y [E Hy]].
+    assert (y = x) by (apply Hinj; [right; exact Hy | left; reflexivity | exact E]). subst. contradiction.
+  - apply IH; [exact Hr|]. intros a b Ha Hb. apply Hinj; right; assumption.
+Qed.
+
+Lemma NoDup_app_r {A} (l1 l2 : list A) : NoDup (l1 ++ l2) -> NoDup l2.
+Proof.
+  induction l1 as [|x r IH]; cbn [app]; [auto|]. intro H. inversion H; subst. apply IH. assumption.
+Qed.
+
+Lemma filter_all {A} (f : A -> bool) l : (forall x, In x l -> f x = true) -> filter f l = l.
+Proof.
+  induction l as [|x r IH]; intro H; cbn [filter]; [reflexivity|].
+  rewrite (H x (or_introl eq_refl)), IH; [reflexivity|]. intros y Hy. apply H. right. exact Hy.
+Qed.
+
+(* each wire has one driver (Block.sanity_check / net_connections) *)
+Definition single_driver : Prop :=
+  forall n1 n2, In n1 (nets nl) -> In n2 (nets nl) -> has_dest n1 = true -> has_dest n2 = true ->
+                ndest n1 = ndest n2 -> n1 = n2.
+
+(* Away from memory writes, every returned path is a SIMPLE path: it repeats no
+   net and no wire, and (src <> dst) never comes back to src -- this is what the
+   suffix filter is for, and it does remove every such path. *)
+Theorem paths_sound_simple src dst p :
+  single_driver -> In p (paths nl src dst) -> (forall n, In n p -> has_dest n = true) ->
+  simple_path nl src p dst.
+Proof.
+  intros Hsd Hin Hall. destruct (paths_sound src dst p Hin) as [Hne [Hc Hnd]].
+  specialize (Hnd Hall).
+  assert (Hv : visits p = map ndest p). { unfold visits. rewrite filter_all by exact Hall. reflexivity. }
+  split; [exact Hne|]. split; [exact Hc|]. split; [exact Hnd|]. rewrite Hv. split.
+  - apply NoDup_map_inj; [exact Hnd|]. intros x y Hx Hy E.
+    apply Hsd; auto; eapply chain_in_nets; eauto.
+  - intros Hneq Hsrc. apply in_map_iff in Hsrc. destruct Hsrc as [n [En Hn]].
+    apply in_split in Hn. destruct Hn as [l1 [p2 Ep]].
+    assert (Hc2 : chain nl src p2 dst).
+    { rewrite <- En. apply chain_tail with (w := src) (l1 := l1); [rewrite <- Ep; exact Hc|].
+      intros x Hx. apply Hall. rewrite Ep. apply in_app_or in Hx. apply in_or_app.
+      destruct Hx as [Hx|[<-|[]]]; [left; exact Hx | right; left; reflexivity]. }
+    assert (Hne2 : p2 <> []). { intro E. subst p2. apply chain_nil_eq in Hc2. contradiction. }
+    assert (Hnd2 : NoDup p2).
+    { rewrite Ep in Hnd. apply NoDup_app_r in Hnd. inversion Hnd; assumption. }
+    pose proof (raw_complete src dst p2 Hne2 Hc2 Hnd2) as Hraw.
+    unfold paths in Hin. destruct (src =? dst) eqn:E; [lia|].
+    apply (suffix_filter_drop _ _ _ (sort_desc_sorted _) Hin p2).
+    + apply (proj2 (sort_desc_in _ _)). exact Hraw.
+    + rewrite Ep, app_length. cbn [length]. lia.
+    + rewrite Ep. replace (l1 ++ n :: p2) with ((l1 ++ [n]) ++ p2) by (rewrite <- app_assoc; reflexivity).
+      apply loops_into_intro; [|exact En]. apply Hall. rewrite Ep. apply in_or_app. right. left. reflexivity.
+Qed.
+
+(* exact characterisation away from memory writes *)
+Theorem paths_exact src dst p :
+  single_driver -> (forall n, In n (nets nl) -> has_dest n = true) ->
+  (In p (paths nl src dst) <-> simple_path nl src p dst).
+Proof.
+  intros Hsd Hall. split.
+  - intro Hin. apply paths_sound_simple; auto.
+    intros n Hn. apply Hall. destruct (paths_sound src dst p Hin) as [_ [Hc _]].
+    eapply chain_in_nets; eauto.
+  - apply paths_complete.
 Qed.
 
 End PP.
 
 (* ---------- the two witnesses ---------- *)
 
-(* F18: b = ~a; c = a & b; o <<= c.   paths(a, o) returns 1 of the 2 simple paths *)
+(* F18 witness: b = ~a; c = a & b; o <<= c.   paths(a, o) used to return 1 of the 2 simple paths *)
 Definition f18_nl : netlist :=
   {| wires := [ mkWire 1 1 KInput; mkWire 2 1 KWire; mkWire 3 1 KWire; mkWire 4 1 KOutput ];
      nets := [ mkNet OpNot [1] 2; mkNet OpAnd [1; 2] 3; mkNet OpW [3] 4 ];
@@ -325,12 +502,9 @@ Proof.
   - split; [nodup_dec|]. split; [cbn; nodup_dec|]. intros _. cbn. intuition discriminate.
 Qed.
 
-Theorem paths_reconvergence_refuted :
-  exists nl src dst p, wfb nl = true /\ simple_path nl src p dst /\ ~ In p (paths nl src dst).
-Proof.
-  exists f18_nl, 1, 4, f18_path. split; [vm_compute; reflexivity|]. split; [exact f18_simple|].
-  vm_compute. intuition discriminate.
-Qed.
+(* F18 is fixed in the code (and in the model): both simple paths are returned *)
+Lemma f18_now_complete : In f18_path (paths f18_nl 1 4) /\ length (paths f18_nl 1 4) = 2%nat.
+Proof. vm_compute. split; [left; reflexivity | reflexivity]. Qed.
 
 (* memory write -> read loop: i -> addr; rd = m[addr]; m[wa] <<= rd + 1 (truncated); o <<= ~rd.
    paths(i, o) contains a path in which the read net occurs twice *)
